@@ -226,26 +226,44 @@ def check_frame(ctx, g):
             return
         # freeze one readout (after the model was assembled), train again
         frozen = g.choice(ros) if g.chance(0.7) else None
+        frozen_names = set()
+        how = "none"
         if frozen is not None:
             if g.chance(0.5):
+                how = "node"
                 frozen.is_trainable = False
+                frozen_names = {frozen.name}
             else:
-                frozen.is_trainable = False
+                # the model-level switch freezes every node of the model that learns, online or offline
+                how = "model"
+                model.is_trainable = False
+                frozen_names = {r.name for r in ros}
+                if any(r.is_trainable for r in ros):
+                    ctx.violation(f"after model.is_trainable = False the node(s) {[r.name for r in ros if r.is_trainable]} still report is_trainable", c, obligation=ob)
+                    return
         before = snapshot()
         try:
             train_once()
         except Exception:  # noqa  (a frozen single readout makes the call itself illegal: fine, but nothing may change)
             pass
+        if how != "none" and kind != "offline":
+            # ... and training a frozen online learner directly is no different
+            for r in ros:
+                if r.name in frozen_names:
+                    try:
+                        r.train(np.zeros((2, res.output_dim)) + 0.5, np.ones((2, o)))
+                    except Exception:  # noqa
+                        pass
         after = snapshot()
     except Exception as e:  # noqa
         ctx.violation(f"training raised {type(e).__name__}: {e}", c, obligation=ob)
         return
     ctx.count(dict(c, n=ctx.evaluations), nontrivial=True, obligation=ob)
-    ctx.stat(f"frame model={kind} frozen={'yes' if frozen is not None else 'no'} targets={'mapping' if isinstance(Y, dict) else 'array'}")
+    ctx.stat(f"frame model={kind} frozen={how} targets={'mapping' if isinstance(Y, dict) else 'array'}")
     for name in before:
         for k in before[name]:
             changed = before[name][k] != after[name].get(k)
-            is_frozen = frozen is not None and name == frozen.name
+            is_frozen = name in frozen_names
             if changed and (k not in learned or name == res.name):
                 ctx.violation(f"a training call changed the fixed weight {name}.{k}", c, obligation=ob)
                 return
